@@ -118,7 +118,7 @@ var c35Index = map[string]string{
 func init() {
 	register(Property{ID: "C35", Level: "other", Run: runC35,
 		Technique: "static analysis: crash-site rules over go/ssa (explicit panics, unchecked type assertions, constant-bound index/slice without a length fact, integer division without a non-zero fact) with path-condition discharge, plus a handler-chain invariant for HTTP request paths",
-		Text:      "NOT a crash-freedom proof. Decides: (P1) every explicit panic(...) in the server's packages is one of the classified sites (table with a reason per site; a new or moved panic is reported); (P3) every single-value type assertion in the listener packages (internal/servers/*, api, metrics, pprof, protocols/httpp, protocols/httpp3, protocols/whip) has its dynamic type fixed by construction - UserData() is asserted to the type every SetUserData() call in the module stores - or is a classified site; (P4c) in the same packages every x[k], x[k:], x[:k] with constant k on a slice or string is reached only through branch literals that imply len(x) > k (len comparisons, x == \"\", strings.HasPrefix(x, const)), or x has a length fixed by construction (array backing, strings.Split(...)[0], FindStringSubmatch under a non-nil test with k <= number of groups of the constant pattern, bufio Peek(n) under err == nil), or x is Request.URL.Path[1:] in a handler served through the httpp chain; (HF) that chain contains handlerFilterRequests, which forwards a request only if URL.Path is non-empty and rooted, and every net/http.Server of the module is built there; (P5) integer / and % by a non-constant in those packages has a non-zero fact for the divisor locally or at every call site. Panics are process-fatal: the only recover() in the module re-exits (handlerExitOnPanic). Not decided: third-party parsers and protocol stacks (gortsplib, pion, gosrt, quic-go, gin, gohlslib), non-constant index arithmetic, nil dereferences, memory exhaustion, the media pipeline behind the listeners (stream, recorder, codecs: C23/C27/C28), playback file parsing (C28).",
+		Text:      "NOT a crash-freedom proof. Decides: (P1) every explicit panic(...) in the server's packages is one of the classified sites (table with a reason per site; a new or moved panic is reported); (P3) every single-value type assertion in the listener packages (internal/servers/*, api, metrics, pprof, protocols/httpp, protocols/httpp3, protocols/whip) has its dynamic type fixed by construction - UserData() is asserted to the type every SetUserData() call in the module stores - or is a classified site; (P4c) in the same packages every x[k], x[k:], x[:k] with constant k on a slice or string is reached only through branch literals that imply len(x) > k (len comparisons, x == \"\", strings.HasPrefix(x, const)), or x has a length fixed by construction (array backing, strings.Split(...)[0], FindStringSubmatch under a non-nil test with k <= number of groups of the constant pattern, bufio Peek(n) under err == nil), or x is Request.URL.Path[1:] in a handler served through the httpp chain; (HF) that chain contains handlerFilterRequests, which forwards a request only if URL.Path is non-empty and rooted, and every net/http.Server of the module is built there; (P5) integer / and % by a non-constant in those packages has a non-zero fact for the divisor locally or at every call site; (CO) every close(x.f) of a channel kept in a field, in those packages, runs at most once by structure: an atomic test-and-set (non-blocking receive from the same channel that found it open, or a state field compared with a constant and then set to a falsifying constant) made in ONE critical section of a mutex of the object on every path to the close, or a deferred close in the single goroutine started per make(chan) of that field, or a classified lifecycle site; and the field is closed at one site only (double close panics; a client drives several goroutines of one session concurrently). Panics are process-fatal: the only recover() in the module re-exits (handlerExitOnPanic). Not decided: third-party parsers and protocol stacks (gortsplib, pion, gosrt, quic-go, gin, gohlslib), non-constant index arithmetic, nil dereferences, memory exhaustion, the media pipeline behind the listeners (stream, recorder, codecs: C23/C27/C28), playback file parsing (C28).",
 		Note:      "trusted: the reasons in the classification tables (each names the invariant relied on; entries marked TRUSTED, NOT VERIFIED depend on third-party behaviour); go/ssa construction; regexp/syntax for group counts"})
 	addMutants(
 		Mutant{"C35", "http-filter-removed-from-chain", "internal/protocols/httpp/server.go",
@@ -141,6 +141,12 @@ func init() {
 			"\t\tctx.Writer.Write(hlsMinJS)\n", "\t\tctx.Writer.Write(hlsMinJS)\n\t\tctx.Writer.(http.Flusher).Flush()\n", "C35.assert"},
 		Mutant{"C35", "rtsp-userdata-of-other-type", "internal/servers/rtsp/server.go",
 			"c := ctx.Conn.UserData().(*conn)\n\treturn c.onDescribe(ctx)", "c := ctx.Conn.UserData().(*conn)\n\tctx.Conn.SetUserData(s)\n\treturn c.onDescribe(ctx)", "C35.assert"},
+		Mutant{"C35", "moq-setup-check-then-close-without-lock", "internal/servers/moq/session.go",
+			"func (s *session) processSetupMessage(m *controlmessage.Setup) error {\n\ts.mutex.Lock()\n\tdefer s.mutex.Unlock()\n", "func (s *session) processSetupMessage(m *controlmessage.Setup) error {\n", "C35.close_once"},
+		Mutant{"C35", "moq-publish-state-set-after-unlock", "internal/servers/moq/session.go",
+			"\ts.state = defs.APIMoQSessionStatePublish\n\ts.mutex.Unlock()\n", "\ts.mutex.Unlock()\n\ts.state = defs.APIMoQSessionStatePublish\n", "C35.close_once"},
+		Mutant{"C35", "moq-session-run-started-twice", "internal/servers/moq/session.go",
+			"\tgo s.run()\n", "\tgo s.run()\n\tgo s.run()\n", "C35.close_once"},
 		Mutant{"C35", "api-items-per-page-zero", "internal/api/paginate.go",
 			"if itemsPerPage == 0 {", "if itemsPerPage < 0 {", "C35.div"},
 	)
@@ -165,6 +171,7 @@ func runC35(c *Ctx) {
 	})
 	c.Explain = "P1 C35.panic: every ssa.Panic with a source position in the module (outside " + strings.Join(c35NotServer, ", ") + ") matches a row (function | argument) of the classification table with the tabled multiplicity; stale rows are reported. " +
 		"P3 C35.assert / P4c C35.index / P5 C35.div: functions of " + strings.Join(c35Scope, ", ") + ". HF C35.http_filter.{guard,chain,servers}. " +
+		"CO C35.close_once: forward data flow (lock held / tests passed in the current critical section / gated) from the function entry to each close of a field channel, entering extracted helpers; deferred closes are discharged by the one-goroutine-per-make pattern; C35.close_once.single_site: one close site per channel field. " +
 		"Length facts are recognised on the canonical description of the indexed value (loads of the same field path), provided no store to that path can reach the access. " +
 		"NOT decided: third-party stacks, non-constant indices, nil dereference, the media pipeline (stream/recorder/codecs), playback file parsing; absence of a report is not crash freedom."
 	c.Assume = []string{
@@ -174,6 +181,7 @@ func runC35(c *Ctx) {
 	}
 
 	c35P1(c, p)
+	c35CloseOnce(c, p)
 	c35HTTPFilter(c, p)
 	setUD := c35UserDataTypes(p)
 	nA, nI, nD := 0, 0, 0
